@@ -512,8 +512,17 @@ def judge(case: dict, d: str, rc: int, log: list[dict], records: list[Record | N
                     if h != tok.get_hash() or not mgr.tree.verify(tok):
                         fail("F4", "tree.verify", f"pseudonym {p}: loaded token {_short(h)} does not verify back to "
                                                   f"the genesis hash")
+                skipped = {r["i"] for r in log if r["t"] == "skip"}
+                token_inserts = {r.obj[0].get_hash() for i, r in enumerate(records)
+                                 if r is not None and r in started and i not in skipped and r.table == "Tokens"
+                                 and r.pseud == p}
                 for cred in mgr.credentials:
                     tok = mgr.tree.elements.get(cred.metadata.token_pointer)
+                    if tok is None and cred.metadata.token_pointer not in token_inserts:
+                        # the workload never got as far as inserting this token (an add_credential that the manager
+                        # turned down without inserting anything): "token before its metadata" was not met by the
+                        # caller, so there is nothing to judge
+                        continue
                     if tok is None:
                         fail("F4", "credential.token", f"pseudonym {p}: credential metadata points at token "
                                                        f"{_short(cred.metadata.token_pointer)} which is not in the tree")
